@@ -1,4 +1,5 @@
 import FastraceModel.Lemmas.Wire
+import FastraceModel.Lemmas.JaegerDec
 import FastraceModel.Model.Report.Jaeger
 import FastraceModel.Model.Report.Datadog
 import FastraceModel.Props.ParamsOk
@@ -88,6 +89,29 @@ theorem C19_varint_roundtrip (n : Nat) (rest : List Nat) :
 
 theorem C19_zigzag_roundtrip (u : Nat) (h : u < 2 ^ 64) : unzigzag64 (zigzag64 u) = u :=
   unzigzag64_zigzag64 u h
+
+/-- **the Jaeger datagram round-trips** (whole message: header, method name, Batch, Process,
+    every span struct with its tags and logs): decoding what the reporter serialises for a
+    batch gives the service name and, for every record **exactly once and in order**, its view
+    — ids as bit patterns, name, µs times, every property as a string tag in order, every
+    event as a log with its name and properties.  The bytes are therefore a well-formed Thrift
+    compact `emitBatch` message (the decoder accepts them and consumes them entirely). -/
+theorem C19_jaeger_roundtrip (svc : String) (rs : List Record) (h : ∀ r ∈ rs, r.WF) :
+    decodeBatch (encodeBatch svc rs) = some (strBytes svc, rs.map jaegerView) :=
+  decodeBatch_encodeBatch svc rs h
+
+/-- the view loses no id information: the record's trace, span and parent ids are recoverable -/
+theorem C19_jaeger_view_ids (r : Record) (h : r.WF) :
+    (jaegerView r).traceHigh * 2 ^ 64 + (jaegerView r).traceLow = r.traceId ∧
+    (jaegerView r).spanId = r.spanId ∧ (jaegerView r).parentId = r.parentId := by
+  refine ⟨?_, rfl, rfl⟩
+  simp only [jaegerView]
+  exact C19_jaeger_ids_lossless r.traceId h.1
+
+/-- the generic compact-protocol round trip behind it -/
+theorem C19_thrift_roundtrip (d : TData) (fuel : Nat) (rest : List Nat) (hw : d.WF) (hf : d.size ≤ fuel) :
+    decData fuel (compactKind d) (encData d ++ rest) = some (d, rest) :=
+  decData_encData d fuel rest hw hf
 
 /-- µs conversion loses strictly less than one microsecond -/
 theorem C19_jaeger_time_loss (ns : Nat) : ns / 1000 * 1000 ≤ ns ∧ ns < ns / 1000 * 1000 + 1000 := by
